@@ -403,12 +403,13 @@ func init() {
 			m.block(func() bool { return !m.sch.onces[doneCell] }, "sync.Once.Do")
 		}
 		if t := (*doneCell).(*Term); t.IsConst() && t.Val != 0 {
+			m.hbAcquire(doneCell)
 			return nil
 		}
 		m.set(doneCell, m.C.BV((*doneCell).(*Term).W, 1))
 		m.sch.onces[doneCell] = true
 		func() {
-			defer func() { m.sch.onces[doneCell] = false }()
+			defer func() { m.sch.onces[doneCell] = false; m.hbRelease(doneCell) }()
 			m.callValue(args[1], nil, nil)
 		}()
 		return nil
@@ -416,6 +417,7 @@ func init() {
 	reg("(*sync.Pool).Get", func(m *Machine, fn *ssa.Function, args []Value) Value {
 		p := args[0].(*Value)
 		m.yield()
+		m.hbAcquire(p)
 		if objs := m.pools[p]; len(objs) > 0 {
 			v := objs[len(objs)-1]
 			m.pools[p] = objs[:len(objs)-1]
@@ -434,6 +436,7 @@ func init() {
 		if i, ok := args[1].(Iface); ok && i.T == nil {
 			return nil
 		}
+		m.hbRelease(p)
 		m.pools[p] = append(m.pools[p], args[1])
 		return nil
 	})
@@ -442,21 +445,28 @@ func init() {
 	for _, ty := range []string{"Int32", "Int64", "Uint32", "Uint64", "Uintptr", "Pointer"} {
 		reg("sync/atomic.Load"+ty, func(m *Machine, fn *ssa.Function, args []Value) Value {
 			m.yield()
+			m.hbAcquire(args[0])
 			return m.load(args[0])
 		})
 		reg("sync/atomic.Store"+ty, func(m *Machine, fn *ssa.Function, args []Value) Value {
 			m.yield()
+			m.hbAcquire(args[0])
+			m.hbRelease(args[0])
 			m.store(args[0], args[1])
 			return nil
 		})
 		reg("sync/atomic.Swap"+ty, func(m *Machine, fn *ssa.Function, args []Value) Value {
 			m.yield()
+			m.hbAcquire(args[0])
+			m.hbRelease(args[0])
 			old := m.load(args[0])
 			m.store(args[0], args[1])
 			return old
 		})
 		reg("sync/atomic.CompareAndSwap"+ty, func(m *Machine, fn *ssa.Function, args []Value) Value {
 			m.yield()
+			m.hbAcquire(args[0])
+			m.hbRelease(args[0])
 			old := m.load(args[0])
 			if m.Decide(m.eqVal(old, args[1])) {
 				m.store(args[0], args[2])
@@ -467,6 +477,8 @@ func init() {
 		if ty != "Pointer" {
 			reg("sync/atomic.Add"+ty, func(m *Machine, fn *ssa.Function, args []Value) Value {
 				m.yield()
+				m.hbAcquire(args[0])
+				m.hbRelease(args[0])
 				nv := m.C.Bin(OpAdd, m.asTerm(m.load(args[0])), m.asTerm(args[1]))
 				m.store(args[0], nv)
 				return nv
@@ -476,6 +488,7 @@ func init() {
 	// atomic.Value: field v any
 	reg("(*sync/atomic.Value).Load", func(m *Machine, fn *ssa.Function, args []Value) Value {
 		m.yield()
+		m.hbAcquire(args[0])
 		st := (*args[0].(*Value)).(Struct)
 		return st[0]
 	})
@@ -485,6 +498,8 @@ func init() {
 			panic(targetPanic{msg: "sync/atomic: store of nil value into Value", stack: m.stackString()})
 		}
 		m.yield()
+		m.hbAcquire(args[0])
+		m.hbRelease(args[0])
 		m.set(&st[0], args[1])
 		return nil
 	})
